@@ -1,4 +1,4 @@
 From Coq Require Import Extraction ExtrOcamlBasic.
-From Nomt Require Import Base Hash Trie Store Emit Result PathProof BuildTrie VerifyUpdate Witness MultiProof MultiUpdate CoreGlue Image SyncProto SyncGlue Shards Overflow BitOps Wal RbProto ReadPath FreeList.
+From Nomt Require Import Base Hash Trie Store Emit Result PathProof BuildTrie VerifyUpdate Witness MultiProof MultiUpdate CoreGlue Image SyncProto SyncGlue Shards Overflow BitOps Wal RbProto ReadPath FreeList SeekPath.
 Extraction Language OCaml.
-Separate Extraction Base Hash Trie Store Emit Result PathProof BuildTrie VerifyUpdate Witness MultiProof MultiUpdate CoreGlue Image SyncProto SyncGlue Shards Overflow BitOps Wal RbProto ReadPath FreeList.
+Separate Extraction Base Hash Trie Store Emit Result PathProof BuildTrie VerifyUpdate Witness MultiProof MultiUpdate CoreGlue Image SyncProto SyncGlue Shards Overflow BitOps Wal RbProto ReadPath FreeList SeekPath.
